@@ -332,3 +332,25 @@ def huge_cases(cmd, rng):
                     elif k2 == "blockdata":
                         a[n2] = pattern_bytes(a["blocksize"], 1)
                 yield a
+
+
+def hash_collision_cases(cmd, rng):
+    """consecutive builds of one class whose wide argument values are congruent modulo 2**61-1 (CPython's int hash
+    modulus) but different: what a memo keyed on hash() confuses.  Yields lists of argument dicts to build in order."""
+    m61 = (1 << 61) - 1
+    for name in int_args(cmd):
+        kind, width, _d = cmd.args[name]
+        if kind != "u" or width < 62:
+            continue
+        base = base_args(cmd, "rand", rng)
+        for small, k in ((0, 1), (1, 1), (7, 8), (4, 4), (3, 2), (0x1234, 5)):
+            big = small + k * m61
+            if big >> width:
+                continue
+            for order in ((small, big), (big, small)):
+                seq = []
+                for v in order:
+                    a = dict(base)
+                    a[name] = v
+                    seq.append(fill_derived(cmd, a, rng))
+                yield seq
